@@ -612,7 +612,7 @@ class Live(Family):
     quick_n = 48
     thorough_n = 600
     parallel = True       # ports are bound per process in setup()
-    TIMEOUT = 1.2
+    TIMEOUT = 2.0
 
     def setup(self):
         from ..sim import client_tlspeer as T
@@ -711,7 +711,7 @@ class Live(Family):
         res, el = obs["res"], obs["elapsed"]
         if el > self.TIMEOUT * 2 + 1.0:
             return ("no-timeout-cutoff", f"{case['kind']}: the call took {el}s with timeout {self.TIMEOUT}s")
-        if fin != "stall" and (res[0] == "timeout" or el > self.TIMEOUT - 0.15) and case["kind"] != "cap":
+        if fin != "stall" and (res[0] == "timeout" or el > self.TIMEOUT - 0.4) and case["kind"] != "cap":
             return ("hang-after-close", f"{case['kind']}: the server finished at once ({fin}) but the call ended with {res} after {el}s (timeout {self.TIMEOUT}s)")
         if fin == "stall" and res[0] != "timeout":
             return ("stall-not-timeout", f"{case['kind']}: a stalling server gave {res}")
